@@ -31,7 +31,7 @@ from drivers.httpwire_exec import Run, mon_trace, strict_trace, units_of
 CLAUSES = {1: 'Payload', 2: 'TruncIsError', 3: 'CompleteIsOk', 4: 'NoOverRead', 5: 'Persist', 6: 'NoHang', 7: 'WholeMessage',
            11: 'RespBytes', 12: 'ReqBytes', 13: 'RecCount', 14: 'RecAtMostOne', 15: 'RecBlocks', 16: 'RecLinked',
            17: 'NoStray', 18: 'EventPairs', 19: 'WarcParses', 20: 'RevisitBlocks'}
-C08_INVS = ['D_Payload', 'D_TruncIsError', 'D_CompleteIsOk', 'D_NoOverRead', 'D_Persist', 'NoHang']
+C08_INVS = ['D_Payload', 'D_TruncIsError', 'D_CompleteIsOk', 'D_NoOverRead', 'D_Persist', 'D_WholeMessage', 'NoHang']
 C04_INVS = ['D_RespBytes', 'ReqBytes', 'RecCount', 'RecAtMostOne', 'D_RecBlocks', 'RecLinked']
 ACTIONS = ['Start', 'Stall', 'HdrLine', 'Body', 'LenDone', 'LenEOF', 'LenRead', 'CloseEOF', 'CloseRead', 'ChHdr',
            'ChBodyEOF', 'ChBody', 'ChNl', 'Trailer', 'Fin', 'FinNb', 'RaiseErr']
